@@ -9,6 +9,10 @@ def run(ck):
                       "+log, silent ttl+step +log}} x 9 spare-NodeHost patterns (none / live same or other region / gaps ttl-step, ttl, ttl+step / already "
                       "hosting / unknown-region) x 2 region patterns x defined size in {members-1, members} (quick: the 5-member part is sampled); "
                       "plus PRNG contexts with 1..4 shards sharing 3..8 NodeHosts, kill lists, undefined shards; scripted random source. "
+                      "Id alphabets: about a third of the contexts use replica / shard ids id + k*stride, stride in {100000, 2^32, 2^16} (repair hands out "
+                      "random 64 bit ids), with persisted-log entries CONGRUENT modulo the stride to the member living on that NodeHost. Sequences: "
+                      "2..4 related rounds for one shard (restore / join CREATE, then member removed / added and version bumped, then restore again) and "
+                      "the PRNG contexts in groups of 3 run on ONE long-lived scheduler object, as Drummer does; every round is judged by its own context. "
                       "Non-trivial = the round produced a request, an error or a panic; distinct by md5 of the context line.")
     import time
     t0 = time.time()
@@ -20,13 +24,27 @@ def run(ck):
     ck.cov["timing"] = {"proofs_s": round(t1 - t0, 1), "go_build_s": round(time.time() - t1, 1)}
     quick = ck.tier == "quick"
     if ck.replay:
-        ctxs = [se.normalize_ctx(json.load(open(ck.replay))["context"])]
+        j = json.load(open(ck.replay))
+        ctxs = [se.normalize_ctx(c) for c in j["sequence"]] if "sequence" in j else [se.normalize_ctx(j["context"])]
         full = 0
     else:
+        rng = ck.rng
         ctxs = se.load_corpus("C12")
-        one, full = se.gen_one_shard(ck, eng.ttl, eng.step, 5, 10000 if quick else 10 ** 9)
+        one, full = se.gen_one_shard(ck, eng.ttl, eng.step, 5, 9000 if quick else 10 ** 9, big_ids=0.35 if quick else 0.0)
         ctxs += one
-        ctxs += [se.gen_random_ctx(ck.rng, eng.ttl, eng.step) for _ in range(1500 if quick else 30000)]
+        if not quick:   # thorough: the whole small-id grid above, plus a re-mapped sample of it
+            big, _ = se.gen_one_shard(ck, eng.ttl, eng.step, 5, 30000, big_ids=1.0)
+            ctxs += big
+        # sequences of related rounds on one scheduler object
+        for k in range(350 if quick else 6000):
+            ctxs += se.gen_sequence(rng, eng.ttl, eng.step, stride=rng.choice([0, 0] + se.STRIDES))
+        # PRNG contexts, in groups of 3 on one scheduler object (shard ids 1..4 recur with different memberships)
+        rnd = [se.gen_random_ctx(rng, eng.ttl, eng.step, big_ids=0.4) for _ in range(1200 if quick else 30000)]
+        for i, c in enumerate(rnd):
+            if i % 3:
+                c["chain"] = 1
+                c["tag"] += "/chained"
+        ctxs += rnd
     open_ids = {f["id"] for f in ck.open_findings()}
 
     def monitor(v, reqs, c):
